@@ -208,6 +208,10 @@ func (s *initialCryptoStream) Write(p []byte) (int, error) {
 			if a.start == protocol.InvalidByteCount {
 				return 1
 			}
+			if b.start == protocol.InvalidByteCount {
+				// unused cuts sort last: HasData and PopCryptoFrame expect a used cut in cuts[0]
+				return -1
+			}
 			if a.start > b.start {
 				return 1
 			}
